@@ -21,7 +21,8 @@ theorem supply_cases (m a : Melange) (hm : Canon m) (ha : Canon a) :
   obtain ⟨mc, ms⟩ := m
   obtain ⟨ac, as⟩ := a
   have b1 := mc.toNat_lt; have b2 := ms.toNat_lt; have b3 := ac.toNat_lt; have b4 := as.toNat_lt
-  unfold supply capacity
+  rw [supply_eq]
+  unfold supplyImpl capacity
   simp only
   by_cases h1 : maxU - ac < mc
   · right; rw [if_pos h1]; refine ⟨rfl, ?_⟩; u64norm; omega
@@ -37,7 +38,8 @@ theorem supply_cases (m a : Melange) (hm : Canon m) (ha : Canon a) :
 (no canonicity needed). -/
 theorem supply_err_unchanged (m a m' : Melange) (e : Err) (h : supply m a = (m', some e)) :
     m' = m ∧ e = .overflow := by
-  unfold supply at h
+  rw [supply_eq] at h
+  unfold supplyImpl at h
   simp only at h
   split at h
   · cases h; exact ⟨rfl, rfl⟩
@@ -56,7 +58,8 @@ theorem transfer_cases (amt frm to : Melange) (ha : Canon amt) (hf : Canon frm) 
   obtain ⟨tc, ts⟩ := to
   have b1 := ac.toNat_lt; have b2 := as.toNat_lt; have b3 := fc.toNat_lt; have b4 := fs.toNat_lt
   have b5 := tc.toNat_lt; have b6 := ts.toNat_lt
-  unfold transfer capacity
+  rw [transfer_eq]
+  unfold transferImpl capacity
   simp only
   by_cases h1 : ac > fc
   · right; left; rw [if_pos h1]; refine ⟨rfl, ?_⟩; u64norm; omega
@@ -83,7 +86,8 @@ theorem transfer_cases (amt frm to : Melange) (ha : Canon amt) (hf : Canon frm) 
 /-- A failing `transfer` changes neither side, whatever the arguments (no canonicity needed). -/
 theorem transfer_err_unchanged (amt frm to f' t' : Melange) (e : Err)
     (h : transfer amt frm to = (f', t', some e)) : f' = frm ∧ t' = to := by
-  unfold transfer at h
+  rw [transfer_eq] at h
+  unfold transferImpl at h
   simp only at h
   repeat' split at h
   all_goals first | (cases h; exact ⟨rfl, rfl⟩) | cases h
